@@ -60,6 +60,7 @@ class Monitors:
         self.ctx = ctx
         self.meta = {}
         self.last_t0 = None
+        self.last_args = None
         self.boundary = None  # (t0 values aligned to tof) for the boundary call
 
     def t0(self, ev):
@@ -72,6 +73,7 @@ class Monitors:
 
         def h(ev):
             ctx = self.ctx
+            self.last_args = ev.args
             case = {'kernel': name, **self.meta, 'args': {k: describe(v) for k, v in ev.args.items()}}
             if ev.exc is not None:
                 ctx.violation('raised', f'{name} raised {type(ev.exc).__name__}: {ev.exc}', case, kernel=kind)
@@ -91,9 +93,16 @@ class Monitors:
                 got = ops.result_values(res)
                 gotl = got.astype(si.LD)
                 t = S['tof']
-                band = 8 * eps * np.maximum(np.abs(t), t0)
-                below = t < t0 - band
-                above = t > t0 + band
+                valid = (np.isfinite(t.astype(np.float64)) & np.isfinite(S['L1'].astype(np.float64))
+                         & np.isfinite(S['L2'].astype(np.float64)) & np.isfinite(S[en_name].astype(np.float64))
+                         & (S[en_name] > 0))
+                n_invalid = int(valid.size - np.count_nonzero(valid))
+                if n_invalid:
+                    ctx.count('elements with non-finite inputs (not judged)', n_invalid)
+                with np.errstate(invalid='ignore'):
+                    band = 8 * eps * np.maximum(np.abs(t), t0)
+                    below = valid & (t < t0 - band)
+                    above = valid & (t > t0 + band)
                 with np.errstate(divide='ignore', invalid='ignore'):
                     cond = t / (t - t0)
                     # 1e-11: accuracy floor of the unit-converted constants (scipp's to_unit; cf. the bound C01 states)
@@ -111,7 +120,7 @@ class Monitors:
                 ctx.violation('dtype', f'{name}: dtype {ops.elem_dtype(res)} expected {want_dtype}', case,
                               kernel=kind)
                 return
-            if np.any(np.isinf(got)):
+            if np.any(np.isinf(got[valid])):
                 ctx.violation('infinite', f'{name}: infinite result for finite inputs', case, kernel=kind,
                               boundary=self.boundary is not None)
                 return
@@ -119,9 +128,10 @@ class Monitors:
                 # second stage: tof placed around the t0 the code computed itself
                 t0c = ops.align(self.boundary, res)
                 tv = ops.align(tof, res)
-                must_nan = tv <= t0c
-                ctx.count('boundary_points', int(tv.size))
-                wrong = np.isnan(got) != must_nan
+                okb = np.isfinite(t0c)  # a dead pixel has no boundary
+                must_nan = tv <= np.where(okb, t0c, 0)
+                ctx.count('boundary_points', int(np.count_nonzero(okb)))
+                wrong = okb & (np.isnan(got) != must_nan)
                 if np.any(wrong):
                     i = int(np.argmax(wrong))
                     ctx.violation('nan_boundary', f'{name}: tof {np.ravel(tv)[i]!r} vs t0 {np.ravel(t0c)[i]!r}: '
@@ -131,7 +141,7 @@ class Monitors:
             nb, na = int(np.count_nonzero(below)), int(np.count_nonzero(above))
             ctx.count('decided:below t0', nb)
             ctx.count('decided:above t0', na)
-            ctx.count('undecided:within 8 ulp of t0', int(t.size - nb - na))
+            ctx.count('undecided:within 8 ulp of t0', int(np.count_nonzero(valid) - nb - na))
             if np.any(~np.isnan(got[below])):
                 ctx.violation('not_nan_below_t0', f'{name}: finite result for arrival before the fixed leg '
                               'could be flown', case, kernel=kind)
@@ -209,15 +219,32 @@ def gen(rng, ctx, kind, layout, f32, units):
     L1_u = (L1 / fl1).astype(r)
     L2_u = (L2 / fl2).astype(r)
     Efix_u = (Efix / fe).astype(r)
+    # a dead pixel: one entry of a per-pixel fixed-leg input is NaN (spectra without a fixed energy or without a
+    # detector position are loaded like that); it must not affect the other pixels, and is itself not judged
+    dead = None
+    if layout in ('2d', 'binned') and npix > 1 and rng.random() < 0.15:
+        dead = int(rng.integers(0, npix))
+        if kind == 'indirect':
+            Efix_u = Efix_u.copy()
+            Efix_u[dead] = np.nan
+        elif per_pixel_L1:
+            L1_u = L1_u.copy()
+            L1_u[dead] = np.nan
+        else:
+            dead = None
+        if dead is not None:
+            ctx.hit('dead pixel (NaN fixed-leg input)')
     L1s, L2s, Efs = L1_u.astype(si.LD) * si.LD(fl1), L2_u.astype(si.LD) * si.LD(fl2), Efix_u.astype(si.LD) * si.LD(fe)
     if kind == 'direct':
         t = (L1s / v_of(Efs))[:, None] + L2s[:, None] / v_of(Eother.astype(si.LD))
     else:
         t = L1s[:, None] / v_of(Eother.astype(si.LD)) + (L2s / v_of(Efs))[:, None]
     t_u = (t / si.LD(ft)).astype(np.float64)
+    t_u = np.where(np.isfinite(t_u), t_u, 1000.0)
     # unphysical and near-boundary arrivals
     t0 = (L1s / v_of(Efs))[:, None] if kind == 'direct' else (L2s / v_of(Efs))[:, None]
     t0_u = (t0 / si.LD(ft)).astype(np.float64) * np.ones_like(t_u)
+    t0_u = np.where(np.isfinite(t0_u), t0_u, 500.0)
     sel = rng.random(size=t_u.shape)
     t_u = np.where(sel < 0.15, t0_u * rng.uniform(0.05, 0.999, size=t_u.shape), t_u)
     t_u = np.where((sel >= 0.15) & (sel < 0.2), t0_u * (1 + 10.0 ** rng.uniform(-6, -2, size=t_u.shape)), t_u)
@@ -296,7 +323,7 @@ def boundary_call(rng, ctx, K, mon, kind, kw):
         mon.boundary = None
 
 
-def insitu(rng, ctx, scn, kind):
+def insitu(rng, ctx, scn, kind, mon=None):
     """convert(..., target='energy_transfer') on a data array; the monitors see the kernel call."""
     kw, sig = gen(rng, ctx, kind, 'binned' if rng.random() < 0.5 else '2d', False,
                   ('meV', 'us', 'm', 'm'))
@@ -310,7 +337,27 @@ def insitu(rng, ctx, scn, kind):
         da = sc.DataArray(sc.bins(begin=c['begin'], end=c['end'], dim='event', data=ev), coords=coords)
     else:
         da = sc.DataArray(sc.ones(dims=tof.dims, shape=tof.shape), coords={**coords, 'tof': tof})
-    out = scn.convert(da, 'tof', 'energy_transfer', scatter=True)
+    # positions that contradict the supplied L1/L2 (the real flight path of an indirect spectrometer is not the
+    # straight line): the supplied lengths must win, also when an earlier conversion already consumed them
+    npx = kw['L2'].sizes.get('pixel', 1)
+    two_step = mon is not None and 'pixel' in kw['L2'].dims and rng.random() < 0.5
+    if two_step:
+        da.coords['source_position'] = sc.vector([0.0, 0.0, -3.0], unit='m')
+        da.coords['sample_position'] = sc.vector([0.0, 0.0, 0.0], unit='m')
+        da.coords['position'] = sc.vectors(dims=['pixel'], values=rng.normal(size=(npx, 3)) + [0, 0, 2.0], unit='m')
+        first = scn.convert(da, 'tof', 'wavelength', scatter=True)
+        mon.last_args = None
+        out = scn.convert(first, 'tof', 'energy_transfer', scatter=True)
+        ctx.event('two_step_convert')
+        la = mon.last_args
+        if la is not None:
+            for nm in ('L1', 'L2'):
+                if not np.array_equal(np.asarray(la[nm].values), np.asarray(kw[nm].values), equal_nan=True) or la[nm].unit != kw[nm].unit:
+                    ctx.violation('supplied_length_replaced', f'energy transfer after an earlier conversion was computed '
+                                  f'with a {nm} different from the one supplied on the data', {'kind': kind, 'coord': nm},
+                                  coord=nm)
+    else:
+        out = scn.convert(da, 'tof', 'energy_transfer', scatter=True)
     has = 'energy_transfer' in (out.bins.coords if ops.is_binned(tof) else out.coords)
     if not has:
         ctx.violation('convert_no_target', 'convert returned without energy_transfer', {'kind': kind})
@@ -329,9 +376,10 @@ def plan(tier, seed):
 def requirements(tier):
     return {'events': {'energy_transfer_direct_from_tof': 100, 'energy_transfer_indirect_from_tof': 100},
             'forced': ['tof below t0', 'boundary sextuple', 'per-pixel L1',
-                       'float32 with extreme units inside the domain'],
+                       'float32 with extreme units inside the domain', 'dead pixel (NaN fixed-leg input)'],
             'counters': {'boundary_points': 500, 'decided:below t0': 200, 'decided:above t0': 2000,
-                         'convert_calls': 10}}
+                         'convert_calls': 10},
+            }
 
 
 def run(shard, ctx):
@@ -383,7 +431,7 @@ def run(shard, ctx):
         mon.meta = {'family': 'convert'}
         for i in range(shard['insitu']):
             try:
-                ctx.case(insitu(rng, ctx, scn, 'direct' if i % 2 == 0 else 'indirect'))
+                ctx.case(insitu(rng, ctx, scn, 'direct' if i % 2 == 0 else 'indirect', mon))
                 ctx.count('convert_calls')
             except Exception as e:  # noqa: BLE001
                 ctx.violation('convert_raised', f'convert raised {type(e).__name__}: {e}', {'family': 'convert'})
